@@ -242,7 +242,7 @@ pub async fn scenario() {
 								17 => (method_notif("other", Some(&json!([payload]))), PushKind::Method { name: "other".into(), payload }),
 								_ if sc && !closed_by_server.contains(&sid.to_string()) => {
 									closed_by_server.push(sid.to_string());
-									(sub_close("n", &sid, &json!("bye")), PushKind::Close { sub: sid.to_string() })
+									(sub_close("n", &sid, rt::pick("close_reason", &[json!("bye"), json!("say \"bye\" \\ and\nleave"), json!({"code": 1, "why": ["x"]}), json!(42), Value::Null])), PushKind::Close { sub: sid.to_string() })
 								}
 								_ => (sub_notif("n", &sid, &json!(payload)), PushKind::Notif { sub: sid.to_string(), payload }),
 							};
